@@ -562,8 +562,39 @@ def or_assignments(stmts):
     return out
 
 
+class _BoolForms(ast.NodeTransformer):
+    """`not all(P for ..)` -> `any(not P for ..)`, `not any(..)` -> `all(not ..)`, `not (a not in b)` -> `a in b` (and the other
+    negatable single comparisons: in / not in, == / !=, is / is not)"""
+
+    FLIP = {ast.In: ast.NotIn, ast.NotIn: ast.In, ast.Eq: ast.NotEq, ast.NotEq: ast.Eq, ast.Is: ast.IsNot, ast.IsNot: ast.Is}
+
+    def negate(self, e):
+        if isinstance(e, ast.Compare) and len(e.ops) == 1 and type(e.ops[0]) in self.FLIP:
+            return ast.copy_location(ast.Compare(left=e.left, ops=[self.FLIP[type(e.ops[0])]()], comparators=e.comparators), e)
+        if isinstance(e, ast.UnaryOp) and isinstance(e.op, ast.Not):
+            return e.operand
+        return None
+
+    def visit_UnaryOp(self, node):
+        self.generic_visit(node)
+        if not isinstance(node.op, ast.Not):
+            return node
+        x = node.operand
+        if isinstance(x, ast.Call) and isinstance(x.func, ast.Name) and x.func.id in ("all", "any") and len(x.args) == 1 and not x.keywords and isinstance(x.args[0], (ast.GeneratorExp, ast.ListComp)):
+            neg = self.negate(x.args[0].elt)
+            if neg is not None:
+                comp = type(x.args[0])(elt=neg, generators=x.args[0].generators)
+                return ast.copy_location(ast.Call(func=ast.Name(id="any" if x.func.id == "all" else "all", ctx=ast.Load()), args=[ast.copy_location(comp, x.args[0])], keywords=[]), node)
+        if isinstance(x, ast.Compare):
+            neg = self.negate(x)
+            if neg is not None:
+                return neg
+        return node
+
+
 def syntactic(idx, fi, fn):
     """the expression-level rewrites alone (safe to repeat after inlining)"""
     fn = _MapFilter(idx, fi.module, fi).generic_visit(fn)
+    fn = _BoolForms().generic_visit(fn)
     ast.fix_missing_locations(fn)
     return fn
